@@ -372,8 +372,20 @@ KERNELS = [
                   'earlier mempool transactions, generation-like inputs), the hash-to-role assignment (= every '
                   'delivery order); arrival / eviction / confirmation events enumerated per shape',
            outside='more transactions, more than one fetch batch (200 transactions), the transaction parser (read_tx '
-                   'stubbed), DB.lookup_utxos (stub answering from the reference; the real one is C01)',
+                   'stubbed); in VIEW DB.lookup_utxos is a stub answering from the reference, the real one is wired in by '
+                   'the DBLOOKUP kernel',
            assumptions=['the daemon lists no double spends and no spends of non-existent outputs',
                         'script-hash classes and transaction hashes are concrete'],
            witnesses=1),
 ]
+
+
+def _shared():
+    # the refresh against the REAL DB.lookup_utxos (shared with C09): what the view records for a
+    # confirmed input must be the index's script hash and value, also when live outputs collide
+    from props import c09
+    k = [k for k in c09.KERNELS if k.name == 'DBLOOKUP'][0]
+    return k
+
+
+KERNELS.append(_shared())
